@@ -33,7 +33,8 @@ RULE = ('Generated sequences of mempool states over the whole real server: arriv
         'consecutive stable refreshes the union of touched sets contains every script hash whose '
         'set of unconfirmed transactions changed. Non-trivial = the stable refresh shows an '
         'unconfirmed chain that needed more than one acceptance pass, or a parent confirmed while '
-        'its child stayed.')
+        'its child stayed.' 
+        'Fan stratum: a confirmed 1500/2200-output transaction and mp_consolidate (2-3 mempool transactions spending 400-640 confirmed outputs each: one refresh resolves more than 1000 prevouts).')
 ASSUMPTIONS = ['FakeDaemon models bitcoind (evicts descendants, returns reorged-out transactions)',
                'scripts whose outputs the block processor treats as unspendable are not compared '
                '(the statement does not define their view)']
